@@ -8,7 +8,9 @@ EXTENDS TraceBase, Dense
 VARIABLES l, cur
 vars == <<l, cur>>
 
-Pre(e) == IF Has(e, "pre") THEN e.pre ELSE cur
+\* two live objects may be used alternately in one history: events of the second carry obj = 2
+Obj(e) == IF Has(e, "obj") THEN e.obj ELSE 1
+Pre(e) == IF Has(e, "pre") THEN e.pre ELSE cur[Obj(e)]
 
 \* ---- outcome predicates ----
 GoodMut(e, X) == ~e.panic /\ SameMat(e.post, X)
@@ -75,14 +77,14 @@ Explained(e, M) ==
                             /\ Len(e.got) = e.r * e.c /\ e.got = e.want
     [] OTHER -> FALSE
 
-Init == l = 1 /\ cur = Empty /\ TLCSet(1, 0)
+Init == l = 1 /\ cur = [o \in 1..2 |-> Empty] /\ TLCSet(1, 0)
 Step == /\ l <= NRec
         /\ LET e == Rec[l]
                M == Pre(e)
            IN IF Explained(e, M)
-                THEN cur' = IF IsMutator(e) THEN ModelPost(e, M) ELSE M
+                THEN cur' = [cur EXCEPT ![Obj(e)] = IF IsMutator(e) THEN ModelPost(e, M) ELSE M]
                 ELSE /\ Mismatch(l, e, e.op)
-                     /\ cur' = IF Has(e, "post") THEN e.post ELSE M     \* re-synchronise on the logged state
+                     /\ cur' = [cur EXCEPT ![Obj(e)] = IF Has(e, "post") THEN e.post ELSE M]     \* re-synchronise on the logged state
         /\ l' = l + 1
 Spec == Init /\ [][Step]_vars
 =============================================================================
